@@ -574,6 +574,51 @@ theorem ties_are_order_dependent :
     topN (rowLess ords) 1 [a, b] = [a] ∧ topN (rowLess ords) 1 [b, a] = [b] ∧
     limiter 1 [a, b] = [a] ∧ limiter 1 [b, a] = [b] := by decide
 
+/-! ### the plan-completion callback (`baseTaskContext.Complete`) -/
+
+theorem complete_err_isSome (c : Ctx) (e : Option ErrKind) (h : c.err.isSome = true) :
+    (c.complete true e).err.isSome = true ∧ (c.complete true e).done = true := by
+  cases e with
+  | none => simp [Ctx.complete, h]
+  | some x => simp [Ctx.complete]
+
+theorem step_err_isSome (v : Variant) (c : Ctx) (ev : Event)
+    (h : c.err.isSome = true ∧ c.done = true) :
+    (c.step true v ev).err.isSome = true ∧ (c.step true v ev).done = true := by
+  cases ev with
+  | resp r => exact ⟨handle_err_isSome v c r h.1, handle_done_mono v c r h.2⟩
+  | planDone e => exact complete_err_isSome c e h.1
+
+theorem run_err_isSome (v : Variant) (c : Ctx) (evs : List Event)
+    (h : c.err.isSome = true ∧ c.done = true) :
+    (c.run true v evs).err.isSome = true ∧ (c.run true v evs).done = true := by
+  induction evs generalizing c with
+  | nil => exact h
+  | cons ev evs ih => exact ih _ (step_err_isSome v c ev h)
+
+/-- **error_sticky** (repaired `Complete`, every variant of the merge): once a failing response
+(error message other than not-found, or an undecodable payload) has been handled, the outcome is
+an error — whatever happened before it, whatever the order of the remaining responses and
+wherever the plan-completion callback (`Complete(nil)` or `Complete(err)`) falls among them.
+More generally a recorded error is never erased (`run_err_isSome`). -/
+theorem error_sticky (v : Variant) (c : Ctx) (before after : List Event) (r : Resp) (hr : isFailure r = true)
+    (items : List SelItem) (ords : List OrdItem) (limit : Nat) (order : List Tag) :
+    let final := c.run true v (before ++ Event.resp r :: after)
+    final.done = true ∧ final.err.isSome = true ∧
+    ∃ e, final.outcome items ords limit order = .failed e := by
+  intro final
+  have hmid : ((c.run true v before).handle v r).err.isSome = true ∧ ((c.run true v before).handle v r).done = true := by
+    have := failure_is_error v (c.run true v before) r [] hr
+    exact ⟨this.1, this.2⟩
+  have hsplit : final = ((c.run true v before).handle v r).run true v after := by
+    show c.run true v (before ++ Event.resp r :: after) = _
+    simp only [Ctx.run, List.foldl_append, List.foldl_cons, Ctx.step]
+  have hfin : final.err.isSome = true ∧ final.done = true := by
+    rw [hsplit]; exact run_err_isSome v _ after hmid
+  refine ⟨hfin.2, hfin.1, ?_⟩
+  obtain ⟨e, he⟩ := Option.isSome_iff_exists.mp hfin.1
+  exact ⟨e, by simp [Ctx.outcome, hfin.2, he]⟩
+
 /-! ## 6. the property at full strength, and where the code violates it -/
 
 /-- a node of a placement: its node-local schema of the metric (`none`: never saw it) and the
@@ -704,12 +749,17 @@ pipeline's completion callback calls `Complete(nil)` after the last request is s
 handled while the root is still sending) is forgotten: the query "succeeds" with the data of the
 others. The same response handled after the callback fails the query. -/
 theorem error_before_plan_completion_is_erased (v : Variant) (p : Payload) :
-    (((Ctx.new 2).handleAll v [.error, .ok p]).complete none).err = none ∧
-    (((Ctx.new 2).handle v .error).complete none |>.handle v (.ok p)).err = none ∧
-    ((((Ctx.new 2).complete none).handleAll v [.error, .ok p]).err = some .other) := by
+    (((Ctx.new 2).handleAll v [.error, .ok p]).complete false none).err = none ∧
+    (((Ctx.new 2).handle v .error).complete false none |>.handle v (.ok p)).err = none ∧
+    ((((Ctx.new 2).complete false none).handleAll v [.error, .ok p]).err = some .other) := by
   refine ⟨rfl, ?_, ?_⟩
   · simp only [Ctx.handle, Ctx.absorb, Ctx.complete, Ctx.new]; split <;> rfl
   · simp only [Ctx.handleAll, List.foldl, Ctx.handle, Ctx.absorb, Ctx.complete, Ctx.new]; split <;> rfl
+
+/-- the same schedule in the event form of `error_sticky`: with the pinned `Complete` the error
+of a failing node is gone after the plan-completion callback -/
+theorem error_not_sticky_pinned (v : Variant) :
+    ((Ctx.new 1).run false v [.resp .error, .planDone none]).err = none := rfl
 
 /-- the full-strength statement is false of the code as it is (witness (a); (b), (c), (d) refute
 it just as well) -/
@@ -929,6 +979,20 @@ theorem generated_field_aggregate :
     (fieldAggregateCalls = ["it.HasNext", "it.Next", "pIt.AggType", "pIt.HasNext", "pIt.Next", "a.AggregateBySlot",
         "a.aggregateBySlotOfType"] ∧ crossFeeds = false ∧ crossFeedFallback = true) ∨
     (fieldAggregateCalls = ["it.HasNext", "it.Next", "pIt.AggType", "pIt.HasNext", "pIt.Next", "math.IsInf", "a.aggregate"] ∧ crossFeeds = false ∧ crossFeedFallback = false) := by decide
+
+open LinVerif.Generated.C12 in
+/-- `baseTaskContext.Complete` and the `keep` flag the driver passes to `Ctx.complete` agree:
+the pinned code (unconditional `ctx.err = err`) or `fixes/C12-complete-keeps-error.patch` -/
+theorem generated_complete :
+    (completeSteps = ["mutex.Lock", "ctx.err = err", "mutex.Unlock", "ctx.tryClose"] ∧ completeKeepsError = false) ∨
+    (completeSteps = ["mutex.Lock", "if err != nil || ctx.err == nil", "mutex.Unlock", "ctx.tryClose"] ∧
+      completeKeepsError = true) := by decide
+
+/-- with the repair in the source, `error_sticky` is about the code -/
+theorem current_complete_sticky (h : Generated.C12.completeKeepsError = true) (v : Variant) (c : Ctx)
+    (before after : List Event) (r : Resp) (hr : isFailure r = true) :
+    (c.run Generated.C12.completeKeepsError v (before ++ Event.resp r :: after)).err.isSome = true := by
+  rw [h]; exact (error_sticky v c before after r hr [] [] 0 []).2.1
 
 open LinVerif.Generated.C12 in
 theorem generated_checkError :
